@@ -16,8 +16,8 @@ fn mk(bs: u32, len: usize, atom: u8, ch: u8, bps: u8) -> Case {
         input: Input {
             ch,
             bps,
-            // header rate codes with and without extra bytes (they change the frame sizes)
-            rate: [44100u32, 12340, 65540, 95999, 1000][len % 5],
+            // every class of header rate code: fixed code, tens of Hz (16 bits), unspecified, kHz (8 bits), Hz (16 bits)
+            rate: [44100u32, 12340, 65540, 95999, 1000, 12345, 65535][len % 7],
             bs,
             full,
             tail,
@@ -25,11 +25,11 @@ fn mk(bs: u32, len: usize, atom: u8, ch: u8, bps: u8) -> Case {
             rel: 0,
             // MemSource with hint, integer source without, byte source without, integer sources whose
             // hint is the length rounded up / down to whole blocks
-            delivery: (len % 5) as u8,
+            delivery: (len % 6) as u8,
             seed: 0,
         },
         // every other length with a configured block size that differs from the argument
-        cfg: Cfg { cfg_bs_mismatch: len % 2 == 1, ..Cfg::default() },
+        cfg: Cfg { cfg_bs_mismatch: (len / 6) % 2 == 1, ..Cfg::default() },
     }
 }
 
